@@ -48,6 +48,23 @@ def impl_search(ctx: Ctx, n: int):
         a = a.model_copy(deep=True)
         a += b
         return a
+    def routes(cname, cls, x):
+        out = [("model_validate(model_dump())", cls.model_validate(x.model_dump())), ("deep copy", x.model_copy(deep=True))]
+        try:
+            y = cls()
+            if cname == "ExtendedStat":
+                for sub in cls.model_fields:
+                    for f in type(getattr(x, sub)).model_fields:
+                        setattr(getattr(y, sub), f, getattr(getattr(x, sub), f))
+            else:
+                for f in cls.model_fields:
+                    setattr(y, f, getattr(x, f))
+            if same(y, x):
+                out.append(("default instance filled in place", y))
+        except Exception:      # noqa: BLE001  (a frozen model: this route does not exist)
+            pass
+        return out
+
     classes = {
         "Stat": (base.Stat, lambda: corecases.rnd_stat(rng)),
         "ActionStat": (base.ActionStat, lambda: corecases.rnd_value(rng, ("rec", "ActionStat"))),
@@ -90,6 +107,11 @@ def impl_search(ctx: Ctx, n: int):
             checks = [("%s: a + b = b + a" % cname, [a, b], a + b, b + a),
                       ("%s: (a + b) + c = a + (b + c)" % cname, [a, b, c], (a + b) + c, a + (b + c)),
                       ("%s: a + 0 = a" % cname, [a], a + z, a), ("%s: 0 + a = a" % cname, [a], z + a, a)]
+            # a block is its field values, however it was built: the same values reached by validation of a dump, by a deep copy or by
+            # filling a default instance in place (through the nested blocks for ExtendedStat) must add the same way on either side
+            for rname, b2 in routes(cname, cls, b):
+                checks.append(("%s: a + b does not depend on how b was built (%s)" % (cname, rname), [a, b], a + b2, a + b))
+                checks.append(("%s: b + a does not depend on how b was built (%s)" % (cname, rname), [a, b], b2 + a, b + a))
             if hasattr(cls, "__iadd__"):
                 checks.append(("%s: a += b equals a + b" % cname, [a, b], iadd(a, b), a + b))
                 # the operand may be the accumulator itself (s += s; a list that contains its own accumulator)
